@@ -3,7 +3,7 @@
      pkg/internal/addrquota/quota.go       ipKey, Quota.Blocked (bucket per key; x/time/rate abstracted)
      pkg/internal/packetlimiter/counter.go newCounter, updateAndAdd, expire, add, resize, sum, rate
      pkg/internal/packetlimiter/limiter.go New, Account *)
-From Coq Require Import List ZArith NArith Bool.
+From Coq Require Import List ZArith NArith Bool QArith.
 From Coq Require Import Floats.SpecFloat.
 From Verif Require Import Base.Hex Base.Ip.
 Import ListNotations.
@@ -184,6 +184,59 @@ Definition exceeds_float (tot iv limit : Z) : bool :=
   | Some Gt => true
   | _ => false
   end.
+
+(* ---------- the float computation seen as rational numbers (for the error-band theorem) ---------- *)
+Definition pow2Q (e : Z) : Q :=
+  match e with Z0 => 1%Q | Zpos p => inject_Z (2 ^ Zpos p) | Zneg p => (1 # (2 ^ p))%Q end.
+
+(* the rational a finite binary64 denotes *)
+Definition sf_val (f : spec_float) : option Q :=
+  match f with
+  | S754_zero _ => Some 0%Q
+  | S754_finite s m e => Some ((if s then inject_Z (-1) else 1) * inject_Z (Zpos m) * pow2Q e)%Q
+  | _ => None
+  end.
+
+Definition f_u : Q := (1 # 2 ^ 53)%Q.                       (* unit roundoff of binary64 *)
+Definition f_c0 : Q := (1 # 1000000000)%Q.                  (* the exact 1e-9 *)
+Definition f_dl : Q := (301175296 # 2 ^ 82)%Q.              (* relative error of the binary64 constant 1e-9 *)
+Definition f_c : Q := (f_c0 * (1 + f_dl))%Q.                (* = 4835703278458517 * 2^-82, the constant used *)
+
+Definition qltb (a b : Q) : bool := negb (Qle_bool b a).
+Definition comparison_eqb (a b : comparison) : bool :=
+  match a, b with Eq, Eq => true | Lt, Lt => true | Gt, Gt => true | _, _ => false end.
+
+(* does the float run on (total, interval, limit) obey the standard model of floating-point arithmetic?
+   conversions exact, each of the two roundings within relative error 2^-53, comparison = comparison of
+   the denoted rationals.  Decidable, evaluated by the judge on every decision it replays. *)
+Definition float_run_ok (tot iv limit : Z) : bool :=
+  let ft := f64_of_int tot in let fi := f64_of_int iv in let fl := f64_of_int limit in
+  let fd := SFmul 53 1024 fi f64_1e_9 in
+  let fq := SFdiv 53 1024 ft fd in
+  match sf_val ft, sf_val fi, sf_val fl, sf_val fd, sf_val fq with
+  | Some vt, Some vi, Some vl, Some d, Some q =>
+    let P := (inject_Z iv * f_c)%Q in
+    let T := inject_Z tot in
+    Qeq_bool vt T && Qeq_bool vi (inject_Z iv) && Qeq_bool vl (inject_Z limit)
+    && Qle_bool ((1 - f_u) * P) d && Qle_bool d ((1 + f_u) * P)
+    && Qle_bool ((1 - f_u) * T) (q * d) && Qle_bool (q * d) ((1 + f_u) * T)
+    && match SFcompare fq fl with
+       | Some cmp => comparison_eqb cmp (q ?= vl)%Q
+       | None => false
+       end
+  | _, _, _, _, _ => false
+  end.
+
+(* outside the band around T*10^9 = L*iv in which the two roundings could flip the comparison:
+   L*P*(1+u) < T*(1-u)  or  T*(1+u) <= L*P*(1-u),  P = iv * c  (c the binary64 1e-9, u = 2^-53) *)
+Definition outside_band (tot iv limit : Z) : bool :=
+  let P := (inject_Z iv * f_c)%Q in
+  let T := inject_Z tot in let L := inject_Z limit in
+  qltb (L * P * (1 + f_u)) (T * (1 - f_u)) || Qle_bool (T * (1 + f_u)) (L * P * (1 - f_u)).
+
+(* a simpler sufficient condition: |T*10^9 - L*iv| * 2^51 > L*iv *)
+Definition far_from_equality (tot iv limit : Z) : bool :=
+  (limit * iv <? Z.abs (tot * 1000000000 - limit * iv) * 2 ^ 51)%Z.
 
 (* the comparison the property talks about: count in the window > rate per second * window *)
 Definition exceeds_exact (tot iv limit : Z) : bool := limit * iv <? tot * 1000000000.
